@@ -381,3 +381,145 @@ Section GenericOracles.
   Qed.
 End GenericOracles.
 
+
+(* ---------- the four loaders with a version-1 form: loadOperator, loadAccount, loadUser, loadActivation ----------
+   Each is a switch on the version handed in by loadClaims: 1 - the payload is unmarshalled into the version-1 shadow
+   struct (for users and activations after the "no limit" presets, and nothing else, were stored into it) and migrated;
+   2 - it is unmarshalled into the claims struct (an account's key set made beforehand, its flat JetStream limits cleared
+   exactly when tiers are present); anything else is refused before the payload is looked at.  The structs are fresh
+   opaque locals; json.Unmarshal, the stores and Migrate are unknown functions - the statements hold whatever they are. *)
+Section Loaders.
+  Context {V : Type} (vnil : V).
+  Definition refuse_version : V * option string := (vnil, Some "library supports version %d or less - received %d").
+  Definition after_unmarshal (r : V * option string) (k : V -> V * option string) : V * option string :=
+    if negb (go_err_isnil (snd r)) then (vnil, snd r) else k (fst r).
+
+  Lemma src_load_operator unm2 unm1 migrate (data : string) (version : Z) :
+    V2.loadOperator V vnil unm2 unm1 migrate data version
+    = if (version =? 1)%Z then after_unmarshal (unm1 data) migrate
+      else if (version =? 2)%Z then after_unmarshal (unm2 data) (fun v => (v, None))
+      else refuse_version.
+  Proof.
+    unfold V2.loadOperator, after_unmarshal, refuse_version. cbv zeta.
+    destruct (version =? 1)%Z; [destruct (unm1 data) as [v e]; reflexivity|].
+    destruct (version =? 2)%Z; [destruct (unm2 data) as [v e]; reflexivity|reflexivity].
+  Qed.
+  Lemma src_load_account unm2into unm1 (tiers : V -> list (string * V)) clear_flat make_keys migrate (data : string) (version : Z) :
+    V2.loadAccount V vnil unm2into unm1 tiers clear_flat make_keys migrate data version
+    = if (version =? 1)%Z then after_unmarshal (unm1 data) migrate
+      else if (version =? 2)%Z
+           then after_unmarshal (unm2into (make_keys vnil) data)
+                  (fun v => (if (go_llen (tiers v) >? 0)%Z then clear_flat v else v, None))
+      else refuse_version.
+  Proof.
+    unfold V2.loadAccount, after_unmarshal, refuse_version. cbv zeta.
+    destruct (version =? 1)%Z; [destruct (unm1 data) as [v e]; reflexivity|].
+    destruct (version =? 2)%Z; [destruct (unm2into (make_keys vnil) data) as [v e]; reflexivity|reflexivity].
+  Qed.
+  Lemma src_load_user unm2 unm1into migrate set_nolimits (set_max : V -> Z -> V) (data : string) (version : Z) :
+    V2.loadUser V vnil unm2 unm1into migrate set_nolimits set_max data version
+    = if (version =? 1)%Z then after_unmarshal (unm1into (set_max (set_nolimits vnil) (-1)%Z) data) migrate
+      else if (version =? 2)%Z then after_unmarshal (unm2 data) (fun v => (v, None))
+      else refuse_version.
+  Proof.
+    unfold V2.loadUser, after_unmarshal, refuse_version. cbv zeta.
+    destruct (version =? 1)%Z; [destruct (unm1into (set_max (set_nolimits vnil) (-1)%Z) data) as [v e]; reflexivity|].
+    destruct (version =? 2)%Z; [destruct (unm2 data) as [v e]; reflexivity|reflexivity].
+  Qed.
+  Lemma src_load_activation unm2 unm1into migrate (set_max set_payload : V -> Z -> V) (data : string) (version : Z) :
+    V2.loadActivation V vnil unm2 unm1into migrate set_max set_payload data version
+    = if (version =? 1)%Z then after_unmarshal (unm1into (set_payload (set_max vnil (-1)%Z) (-1)%Z) data) migrate
+      else if (version =? 2)%Z then after_unmarshal (unm2 data) (fun v => (v, None))
+      else refuse_version.
+  Proof.
+    unfold V2.loadActivation, after_unmarshal, refuse_version. cbv zeta.
+    destruct (version =? 1)%Z; [destruct (unm1into (set_payload (set_max vnil (-1)%Z) (-1)%Z) data) as [v e]; reflexivity|].
+    destruct (version =? 2)%Z; [destruct (unm2 data) as [v e]; reflexivity|reflexivity].
+  Qed.
+
+  (* the version rule of the four kinds, at the code: any version but 1 and 2 is refused, whatever the payload holds *)
+  Lemma neq_eqb (a b : Z) : a <> b -> (a =? b)%Z = false.
+  Proof. intros H. now apply Z.eqb_neq. Qed.
+  Lemma src_loaders_refuse_other_versions (data : string) (version : Z) : version <> 1%Z -> version <> 2%Z ->
+    (forall unm2 unm1 migrate, V2.loadOperator V vnil unm2 unm1 migrate data version = refuse_version) /\
+    (forall unm2into unm1 tiers clear_flat make_keys migrate, V2.loadAccount V vnil unm2into unm1 tiers clear_flat make_keys migrate data version = refuse_version) /\
+    (forall unm2 unm1into migrate set_nolimits set_max, V2.loadUser V vnil unm2 unm1into migrate set_nolimits set_max data version = refuse_version) /\
+    (forall unm2 unm1into migrate set_max set_payload, V2.loadActivation V vnil unm2 unm1into migrate set_max set_payload data version = refuse_version).
+  Proof.
+    intros H1 H2. repeat split; intros.
+    - rewrite src_load_operator, (neq_eqb _ _ H1), (neq_eqb _ _ H2). reflexivity.
+    - rewrite src_load_account, (neq_eqb _ _ H1), (neq_eqb _ _ H2). reflexivity.
+    - rewrite src_load_user, (neq_eqb _ _ H1), (neq_eqb _ _ H2). reflexivity.
+    - rewrite src_load_activation, (neq_eqb _ _ H1), (neq_eqb _ _ H2). reflexivity.
+  Qed.
+End Loaders.
+
+(* ---------- the version-1 migrations: v1OperatorClaims / v1AccountClaims / v1UserClaims / v1ActivationClaims .migrateV1 ----------
+   Each builds the version-2 claims in a struct of its own by a sequence of stores.  The opaque type is instantiated
+   by the LOG of those stores ([line]s: which field, from what), the values of the version-1 struct that are themselves
+   opaque by one-line logs naming them: the theorems say which field receives what, in order, and that nothing else
+   is written. *)
+Inductive line :=
+  | LSrc (name : string)                              (* an opaque value of the version-1 struct, by name *)
+  | LCopy (field : string) (from : list line)         (* field := that opaque value *)
+  | LCopyAll (field : string) (from : list (list line))
+  | LStr (field : string) (v : string) | LList (field : string) (v : list string) | LZ (field : string) (z : Z)
+  | LBool (field : string) (b : bool) | LRevs (field : string) (l : list (string * Z))
+  | LMake (field : string)                            (* field := a new empty map *)
+  | LZero (field : string)                            (* field := the zero struct *)
+  | LCall (field meth : string) (arg : string).       (* field.meth(arg) *)
+Definition mlog := list line.
+Definition wr (l : line) (a : mlog) : mlog := a ++ [l].
+
+Lemma src_migrate_activation (cd : mlog) (ia : string) (tags : list string) (ty subj : string) (kind : Z) :
+  V2.v1ActivationClaims_migrateV1 mlog [] cd ia tags ty subj kind
+    (fun a v => wr (LStr "Activation.IssuerAccount" v) a) (fun a v => wr (LList "Activation.Tags" v) a) (fun a v => wr (LStr "Activation.Type" v) a)
+    (fun a v => wr (LCopy "ClaimsData" v) a) (fun a v => wr (LStr "ImportSubject" v) a) (fun a v => wr (LZ "ImportType" v) a) (fun a v => wr (LZ "Version" v) a)
+  = ([LCopy "ClaimsData" cd; LStr "Activation.Type" ty; LList "Activation.Tags" tags; LStr "Activation.IssuerAccount" ia;
+      LStr "ImportSubject" subj; LZ "ImportType" kind; LZ "Version" 1%Z], None).
+Proof. reflexivity. Qed.
+
+Lemma src_migrate_user (cd : mlog) (ia : string) (tags : list string) (ty : string) (bearer : bool) (limits perms : mlog) :
+  V2.v1UserClaims_migrateV1 mlog [] cd ia tags ty bearer limits perms
+    (fun a v => wr (LCopy "ClaimsData" v) a) (fun a v => wr (LBool "User.BearerToken" v) a) (fun a v => wr (LStr "User.IssuerAccount" v) a)
+    (fun a v => wr (LCopy "User.Limits" v) a) (fun a v => wr (LCopy "User.Permissions" v) a) (fun a v => wr (LList "User.Tags" v) a)
+    (fun a v => wr (LStr "User.Type" v) a) (fun a v => wr (LZ "Version" v) a)
+  = ([LCopy "ClaimsData" cd; LStr "User.Type" ty; LList "User.Tags" tags; LStr "User.IssuerAccount" ia;
+      LCopy "User.Permissions" perms; LCopy "User.Limits" limits; LBool "User.BearerToken" bearer; LZ "Version" 1%Z], None).
+Proof. reflexivity. Qed.
+
+Lemma src_migrate_operator (cd : mlog) (tags : list string) (ty url : string) (urls keys : list string) (sys : string) :
+  V2.v1OperatorClaims_migrateV1 mlog [] cd tags ty url urls keys sys
+    (fun a v => wr (LCopy "ClaimsData" v) a) (fun a v => wr (LStr "Operator.AccountServerURL" v) a) (fun a v => wr (LList "Operator.OperatorServiceURLs" v) a)
+    (fun a v => wr (LList "Operator.SigningKeys" v) a) (fun a v => wr (LStr "Operator.SystemAccount" v) a) (fun a v => wr (LList "Operator.Tags" v) a)
+    (fun a v => wr (LStr "Operator.Type" v) a) (fun a v => wr (LZ "Version" v) a)
+  = ([LCopy "ClaimsData" cd; LStr "Operator.Type" ty; LList "Operator.Tags" tags; LList "Operator.SigningKeys" keys;
+      LStr "Operator.AccountServerURL" url; LList "Operator.OperatorServiceURLs" urls; LStr "Operator.SystemAccount" sys; LZ "Version" 1%Z], None).
+Proof. reflexivity. Qed.
+
+Lemma add_keys_loop : forall (keys : list string) (i : Z) (a : mlog),
+  go_range (R:=mlog * option string) (fun (_ : Z) (v : string) (go_st : mlog) => Cont (wr (LCall "Account.SigningKeys" "Add" v) go_st)) i keys a
+  = inl (a ++ map (LCall "Account.SigningKeys" "Add") keys).
+Proof.
+  induction keys as [|k keys IH]; intros i a; [cbn; now rewrite app_nil_r|].
+  cbn [go_range map]. rewrite IH. unfold wr. rewrite <- app_assoc. reflexivity.
+Qed.
+
+Lemma src_migrate_account (cd : mlog) (tags : list string) (ty : string) (exports imports : list mlog) (alim nlim : mlog)
+    (revs : list (string * Z)) (keys : list string) :
+  V2.v1AccountClaims_migrateV1 mlog [] cd tags ty exports imports alim nlim revs keys
+    (fun a v => wr (LCall "Account.SigningKeys" "Add" v) a)
+    (fun a v => wr (LCopyAll "Account.Exports" v) a) (fun a v => wr (LCopyAll "Account.Imports" v) a)
+    (fun a v => wr (LCopy "Account.Limits.AccountLimits" v) a) (fun a => wr (LZero "Account.Limits.JetStreamLimits") a)
+    (fun a v => wr (LCopy "Account.Limits.NatsLimits" v) a) (fun a v => wr (LRevs "Account.Revocations" v) a)
+    (fun a => wr (LMake "Account.SigningKeys") a) (fun a v => wr (LList "Account.Tags" v) a) (fun a v => wr (LStr "Account.Type" v) a)
+    (fun a v => wr (LCopy "ClaimsData" v) a) (fun a v => wr (LZ "Version" v) a)
+  = ([LCopy "ClaimsData" cd; LStr "Account.Type" ty; LList "Account.Tags" tags; LCopyAll "Account.Imports" imports; LCopyAll "Account.Exports" exports;
+      LCopy "Account.Limits.AccountLimits" alim; LCopy "Account.Limits.NatsLimits" nlim; LZero "Account.Limits.JetStreamLimits"; LMake "Account.SigningKeys"]
+     ++ map (LCall "Account.SigningKeys" "Add") keys ++ [LRevs "Account.Revocations" revs; LZ "Version" 1%Z], None).
+Proof.
+  unfold V2.v1AccountClaims_migrateV1. cbv zeta.
+  match goal with |- context [go_range ?B 0%Z keys ?a0] =>
+    change (go_range B 0%Z keys a0) with (go_range (R:=mlog * option string) (fun (_ : Z) (v : string) (go_st : mlog) => Cont (wr (LCall "Account.SigningKeys" "Add" v) go_st)) 0%Z keys a0) end.
+  rewrite add_keys_loop. cbv iota beta. unfold wr. cbn [app]. rewrite <- !app_assoc. reflexivity.
+Qed.
